@@ -270,3 +270,17 @@ def queries():
                             desc="br_rsa_i%d_compute_privexp: d == e^-1 mod (p-1)(q-1), d < phi, for e = %s and two concrete 40-bit factors (= 3 mod 4); all inputs concrete (a symbolic e has no verdict in 280 s); functional claim only (cbmc's pointer/bounds instrumentation is off for these queries: 150k extra conditions)" % (impl, lit)))
                 qs[-1].heavy = True   # ~16 GB of symex memory each: the driver runs at most three at a time
     return qs
+
+
+# ---- cross-included by the main session: the RSA public/private operations (anchors rsa_i15/i31/i32_pub.c, *_priv.c) are
+# inverse of each other only if the modular reduction step they are built on is exact near the modulus as well (seeded
+# change C10e: br_i32_muladd_small without its top-words-equal case); decided by the C09 muladd_small query families.
+_c10_queries2 = queries
+def queries():
+    qs = _c10_queries2()
+    try:
+        import C09
+        qs = qs + [q for q in C09.mul_queries() if "-muladd-" in q.name and q.tier == "quick"]
+    except Exception:
+        pass
+    return qs
